@@ -279,7 +279,7 @@ func (h *heap) add(l *live) {
 
 // step performs one tape-chosen operation; it returns a description.
 func (h *heap) step(t *verifsim.Tape) (string, *core.Violation) {
-	switch op := t.Intn(16); op {
+	switch op := t.Intn(17); op {
 	case 0, 1, 2: // NewSet from a buffer
 		n := t.Intn(6)
 		buf := make([]types.Value, 0, n+2)
@@ -472,6 +472,30 @@ func (h *heap) step(t *verifsim.Tape) (string, *core.Violation) {
 		}
 		h.add(&live{item: item{out, l.m}})
 		return "Cedar text round trip of " + l.m.String(), nil
+	case 15: // decode an entity uid from a caller-owned byte buffer, then reuse the buffer
+		src := []int{12, 13, 14}[t.Intn(3)]
+		want := scalars[src].(types.EntityUID)
+		buf := append([]byte(nil), want.MarshalCedar()...)
+		var u types.EntityUID
+		var err error
+		if t.Bool() {
+			err = u.UnmarshalCedar(buf)
+		} else {
+			err = u.UnmarshalBinary(buf)
+		}
+		if err != nil {
+			return "", viol("uid-decode-error", "decoding the text form %q of an entity uid failed: %v", buf, err)
+		}
+		h.add(&live{item: item{u, mscalar(src)}})
+		held := types.NewSet(u, types.Long(1))
+		for i := range buf {
+			buf[i] = 'X' // the caller reuses its read buffer
+		}
+		h.muts++
+		if !held.Contains(want) || !u.Equal(want) {
+			return "", viol("uid-aliases-input", "an EntityUID decoded from a byte buffer changed when the caller overwrote the buffer: now %s, was %s", u, want)
+		}
+		return "decode " + mscalar(src).String() + " from a byte buffer, then overwrite the buffer", nil
 	case 10: // entity uid set from a buffer
 		n := t.Intn(5)
 		buf := make([]types.EntityUID, 0, n)
